@@ -2,9 +2,9 @@
 from __future__ import annotations
 from engine.registry import Registry
 from engine import sortmodel, polymodel
-from contracts import option, sorting, align, compare, order_lemmas, leading, dispatch
+from contracts import option, sorting, align, compare, order_lemmas, leading, dispatch, construct
 
-_CONTRACT_MODULES = [option, sorting, align, compare, leading, dispatch]
+_CONTRACT_MODULES = [option, sorting, align, compare, leading, dispatch, construct]
 
 ALL_CONTRACTS = {}
 for _m in _CONTRACT_MODULES:
@@ -16,6 +16,7 @@ def build_registry():
     reg = Registry()
     sortmodel.install(reg)
     polymodel.install(reg)      # (numpy.array: polymodel's axiom covers index vectors too)
+    polymodel.install_clean(reg)
     for c in ALL_CONTRACTS.values():
         def model(ex, args, kw, node, _c=c):
             ex.reg.used.add("contract:" + _c.name)
@@ -25,10 +26,23 @@ def build_registry():
     import os
     from engine.forwarders import forwarders
     from engine.extract import REPO
+    reg.static_methods = set()
     for meth, fw in forwarders(os.environ.get("NUMPOLY_REPO", REPO)).items():
-        if fw["target"] in reg.fn and fw["args"] and fw["args"][0] == "self" and not fw["kwargs"] and not fw["star_kwargs"] \
-                and fw["args"] == fw["params"]:
-            reg.fn[f"numpoly.ndpoly.{meth}"] = reg.fn[fw["target"]]
+        if fw["target"] not in reg.fn or fw["star_kwargs"]:
+            continue
+
+        def alias(ex, args, kw, node, fw=fw):
+            bound = dict(fw["defaults"])
+            bound.update(zip(fw["params"], args))
+            bound.update({k: v for k, v in kw.items() if k != "**"})
+            missing = [a for a in fw["args"] + list(fw["kwargs"].values()) if a not in bound]
+            if missing:
+                from engine.values import U
+                raise U(f"forwarding method called without {missing}", node)
+            return ex.reg.fn[fw["target"]](ex, [bound[a] for a in fw["args"]], {k: bound[v] for k, v in fw["kwargs"].items()}, node)
+        reg.fn[f"numpoly.ndpoly.{meth}"] = alias
+        if fw["static"]:
+            reg.static_methods.add(meth)
     return reg
 
 
